@@ -14,6 +14,7 @@ import (
 	"fmt"
 
 	"github.com/gopacket/gopacket"
+	"github.com/gopacket/gopacket/layers"
 	"verif/harness/corpus"
 	"verif/harness/vh"
 )
@@ -26,7 +27,47 @@ type histT struct {
 	StaleBefore int             `json:"staleBefore"`
 	StaleAfter  int             `json:"staleAfter"`
 	Stale64     int             `json:"stale64"`
+	LayersLeft  int             `json:"layersLeft"`
+	Pushed      []int           `json:"pushed"`
 }
+
+// history: something that happened to a buffer before the serializer under test uses it
+type history interface {
+	build() gopacket.SerializeBuffer
+	name() string
+	fillByte() byte
+}
+
+func (h *histT) fillByte() byte { return byte(h.F) }
+
+// realHist: the buffer was used before by gopacket.SerializeLayers / SerializePacket of other REAL stacks
+// (built ones with stand-alone IPv6 extension headers, decoded corpus packets); beyond SerHistory.tla's bound.
+type realHist struct {
+	nm string
+	mk func() gopacket.SerializeBuffer
+}
+
+// build: the real stack(s), then - so that stale bytes are recognisable as such - the region they occupied is
+// overwritten with 0xAA through the buffer's own API (Clear, PrependBytes, AppendBytes).
+func (h *realHist) build() gopacket.SerializeBuffer {
+	buf := h.mk()
+	n := len(buf.Bytes())
+	buf.Clear()
+	if w, err := buf.PrependBytes(n); err == nil {
+		fill(w, 0xAA)
+	}
+	if w, err := buf.AppendBytes(64); err == nil {
+		fill(w, 0xAA)
+	}
+	return buf
+}
+func (h *realHist) name() string   { return h.nm + ";clear;prepend;append64;f=170" }
+func (h *realHist) fillByte() byte { return 0xAA }
+
+// model type codes of SerHistory.tla -> gopacket layer types
+var modelTypes = map[int]gopacket.LayerType{1: layers.LayerTypeEthernet, 2: layers.LayerTypeIPv4, 3: layers.LayerTypeTCP,
+	4: gopacket.LayerTypePayload, 5: layers.LayerTypeIPv6, 6: layers.LayerTypeUDP, 7: layers.LayerTypeIPv6HopByHop,
+	8: layers.LayerTypeIPv6Destination, 9: layers.LayerTypeIPv6Fragment}
 
 // fillLayer is "another layer" that used the buffer earlier: it writes the fill byte into all it obtains.
 type fillLayer struct {
@@ -34,7 +75,12 @@ type fillLayer struct {
 	f           byte
 }
 
-func (l *fillLayer) LayerType() gopacket.LayerType { return gopacket.LayerType(1900 + l.t) }
+func (l *fillLayer) LayerType() gopacket.LayerType {
+	if t, ok := modelTypes[l.t]; ok {
+		return t
+	}
+	return gopacket.LayerType(1900 + l.t)
+}
 func (l *fillLayer) SerializeTo(b gopacket.SerializeBuffer, _ gopacket.SerializeOptions) error {
 	w, err := b.PrependBytes(l.pre)
 	if err != nil {
@@ -113,6 +159,7 @@ func probe(tr *vh.Trace, hi int, h *histT) {
 	ev := vh.M{"op": "hist", "h": hi, "f": h.F, "before": h.Before, "after": h.After,
 		"staleBefore": h.StaleBefore, "staleAfter": h.StaleAfter, "nops": len(h.Ops)}
 	gb, ob, ga, oa := 0, 0, 0, 0
+	nLayers := len(buf.Layers())
 	lenOK := true
 	if len(buf.Bytes()) != 0 {
 		lenOK = false
@@ -128,6 +175,7 @@ func probe(tr *vh.Trace, hi int, h *histT) {
 		lenOK = lenOK && len(w) == h.After
 	}
 	ev["gotBefore"], ev["gotAfter"], ev["other"], ev["empty"] = gb, ga, ob+oa, lenOK
+	ev["layersLeft"], ev["gotLayers"] = h.LayersLeft, nLayers
 	tr.Emit(ev)
 }
 
@@ -236,6 +284,134 @@ func diffDiag(ref, got []byte, f byte) vh.M {
 	return d
 }
 
+// subject: a layer value that can be produced afresh for every call
+type subject struct {
+	name, first, typ, hex string
+	j, dlen               int
+	fresh                 func() (gopacket.SerializableLayer, []byte, string)
+}
+
+func hasType(h *histT, t int) bool {
+	for _, x := range h.Pushed {
+		if x == t {
+			return true
+		}
+	}
+	return false
+}
+
+// realHistories: buffers that earlier held other real stacks, in particular stacks with stand-alone IPv6
+// extension-header layers (those are recorded in Layers(), which IPv6.SerializeTo consults).
+func realHistories(fx []corpus.Fixture) []history {
+	both := gopacket.SerializeOptions{FixLengths: true, ComputeChecksums: true}
+	built := func(nm string, mk func(r *vh.Rand) ([]gopacket.SerializableLayer, int), times int) history {
+		return &realHist{nm: nm, mk: func() gopacket.SerializeBuffer {
+			buf := gopacket.NewSerializeBuffer()
+			for k := 0; k < times; k++ {
+				ls, n := mk(vh.NewRand(77))
+				ls = append(ls, gopacket.Payload(genPayload(vh.NewRand(78), n)))
+				vh.Guard(func() { gopacket.SerializeLayers(buf, both, ls...) })
+			}
+			return buf
+		}}
+	}
+	eth := func(r *vh.Rand) *layers.Ethernet {
+		return &layers.Ethernet{SrcMAC: mac(r), DstMAC: mac(r), EthernetType: layers.EthernetTypeIPv6}
+	}
+	hbhStack := func(r *vh.Rand) ([]gopacket.SerializableLayer, int) {
+		i6 := genIPv6(r, 0, false, nil)
+		u := genUDP(r)
+		u.SetNetworkLayerForChecksum(i6)
+		return []gopacket.SerializableLayer{eth(r), i6, genHopByHop(r, [][]int{{5, 2, 2, 0}}, 17), u}, 100
+	}
+	dstStack := func(r *vh.Rand) ([]gopacket.SerializableLayer, int) {
+		i6 := genIPv6(r, 60, false, nil)
+		t := genTCP(r, nil)
+		t.SetNetworkLayerForChecksum(i6)
+		return []gopacket.SerializableLayer{eth(r), i6, genDestination(r, [][]int{{62, 1, 0, 0}}, 6), t}, 1000
+	}
+	fragStack := func(r *vh.Rand) ([]gopacket.SerializableLayer, int) {
+		return []gopacket.SerializableLayer{eth(r), genIPv6(r, 44, false, nil),
+			&layers.IPv6Fragment{NextHeader: 17, FragmentOffset: 3, Identification: 9}}, 64
+	}
+	out := []history{built("real:Ethernet/IPv6/IPv6HopByHop/UDP/100", hbhStack, 1),
+		built("real:Ethernet/IPv6/IPv6Destination/TCP/1000", dstStack, 1),
+		built("real:Ethernet/IPv6/IPv6Fragment/64", fragStack, 1),
+		built("real:Ethernet/IPv6/IPv6HopByHop/UDP/100 x3", hbhStack, 3)}
+	// decoded corpus packets that contain a stand-alone hop-by-hop layer, written with SerializePacket
+	nfix := 0
+	for _, f := range fx {
+		if nfix >= 3 || len(f.Data) > 2000 {
+			continue
+		}
+		p := safePacket(f.Data, f.First)
+		if p == nil || p.Layer(layers.LayerTypeIPv6HopByHop) == nil {
+			continue
+		}
+		f := f
+		ok := false
+		vh.Guard(func() {
+			linkChecksumNet(p.Layers())
+			ok = gopacket.SerializePacket(gopacket.NewSerializeBuffer(), both, p) == nil
+		})
+		if !ok {
+			continue
+		}
+		nfix++
+		out = append(out, &realHist{nm: "real:SerializePacket(" + f.Name + ")", mk: func() gopacket.SerializeBuffer {
+			buf := gopacket.NewSerializeBuffer()
+			if q := safePacket(f.Data, f.First); q != nil {
+				vh.Guard(func() {
+					linkChecksumNet(q.Layers())
+					gopacket.SerializePacket(buf, both, q)
+				})
+			}
+			return buf
+		}})
+	}
+	return out
+}
+
+// focusSubjects: IPv6 layers that carry their hop-by-hop header themselves - decoded from fixtures, and built
+// (with and without FixLengths turning them into jumbograms).
+func focusSubjects(fx []corpus.Fixture) []subject {
+	var out []subject
+	for _, f := range fx {
+		if len(out) >= 10 || len(f.Data) > 4000 {
+			continue
+		}
+		p := safePacket(f.Data, f.First)
+		if p == nil {
+			continue
+		}
+		for j, l := range p.Layers() {
+			if i6, ok := l.(*layers.IPv6); ok && i6.HopByHop != nil {
+				in := input{name: f.Name, data: f.Data, first: f.First}
+				j := j
+				out = append(out, subject{name: f.Name, first: f.First.String(), typ: "IPv6", hex: hexOf(f.Data), j: j, dlen: len(f.Data),
+					fresh: func() (gopacket.SerializableLayer, []byte, string) {
+						l, pl, dg, _ := freshLayer(in, j)
+						return l, pl, dg
+					}})
+				break
+			}
+		}
+	}
+	built := func(nm string, hbh bool, n int) {
+		out = append(out, subject{name: "built:" + nm, first: "-", typ: "IPv6", dlen: n,
+			fresh: func() (gopacket.SerializableLayer, []byte, string) {
+				r := vh.NewRand(4242)
+				l := genIPv6(r, 253, hbh, [][]int{{5, 2, 2, 0}})
+				return l, genPayload(r, n), vh.Digest(l)
+			}})
+	}
+	built("IPv6+hbh/40", true, 40)
+	built("IPv6+hbh/65527", true, 65527)
+	built("IPv6/65536 (jumbogram)", false, 65536)
+	built("IPv6+hbh/70001 (jumbogram)", true, 70001)
+	return out
+}
+
 func runC07(tr *vh.Trace, n int, seed uint64, histFile string, khist int, maxlen int, probeH bool) map[string]int {
 	var hs []*histT
 	loadJSONLines(histFile, func() interface{} { return &histT{} }, func(v interface{}) { hs = append(hs, v.(*histT)) })
@@ -243,12 +419,17 @@ func runC07(tr *vh.Trace, n int, seed uint64, histFile string, khist int, maxlen
 		vh.Fatal("no histories (run TLC on SerHistory.tla first)")
 	}
 	freshIdx := 0
-	var dirty []int
+	var dirty, ext []int
+	var all []history
 	for i, h := range hs {
+		all = append(all, h)
 		if len(h.Ops) == 1 && h.Ops[0][0].(string) == "fresh" {
 			freshIdx = i
 		} else {
 			dirty = append(dirty, i)
+		}
+		if hasType(h, 7) {
+			ext = append(ext, i)
 		}
 		tick.Add(1)
 		if probeH {
@@ -256,19 +437,86 @@ func runC07(tr *vh.Trace, n int, seed uint64, histFile string, khist int, maxlen
 		}
 	}
 	fx := corpus.Load()
+	var realIdx []int
+	for _, h := range realHistories(fx) {
+		realIdx = append(realIdx, len(all))
+		all = append(all, h)
+	}
 	types := corpus.RegisteredTypes()
 	ix := buildIndex(fx, types)
 	r := vh.NewRand(seed)
-	st := map[string]int{"cases": 0, "calls": 0, "histories": len(hs), "types_indexed": len(ix.names)}
+	st := map[string]int{"cases": 0, "calls": 0, "histories": len(hs), "real_histories": len(realIdx), "types_indexed": len(ix.names)}
 	rot := int(seed*7919) % len(dirty)
 	stride := 7
 	for gcd(stride, len(dirty)) != 1 {
 		stride++
 	}
 	sc := 0
+	// runSubject: 4 option sets x (fresh buffer + the histories sel() picks), twice in a row each
+	runSubject := func(sub subject, sel func() []int) {
+		_, pl0, dg0 := sub.fresh()
+		if dg0 == "" {
+			return
+		}
+		sc++
+		st["cases"]++
+		tr.Emit(vh.M{"op": "case", "sc": sc, "in": sub.name, "first": sub.first, "j": sub.j, "type": sub.typ,
+			"idg": dg0, "plen": len(pl0), "dlen": sub.dlen, "hex": sub.hex})
+		for o := 0; o < 4; o++ {
+			var ref []byte
+			haveRef := false
+			for _, hi := range append([]int{freshIdx}, sel()...) {
+				h := all[hi]
+				buf := h.build()
+				for rep := 1; rep <= 2; rep++ {
+					l, pl, dg := sub.fresh()
+					if l == nil {
+						break
+					}
+					curCase.Store(fmt.Sprintf("%s first=%s layer=%d type=%s opts=%d hist=%s", sub.name, sub.first, sub.j, sub.typ, o, h.name()))
+					tick.Add(1)
+					so := serOne(buf, l, pl, optsOf(o))
+					st["calls"]++
+					ev := vh.M{"op": "ser", "sc": sc, "o": o, "h": hi, "rep": rep, "res": so.res, "idg": dg,
+						"d": "", "n": len(so.out)}
+					switch so.res {
+					case "ok":
+						ev["d"] = bdigest(so.out)
+						if !haveRef {
+							ref, haveRef = so.out, true
+						} else if !bytes.Equal(ref, so.out) {
+							ev["diag"] = diffDiag(ref, so.out, h.fillByte())
+							ev["hist"] = h.name()
+						}
+					case "err":
+						ev["msg"] = so.msg
+					case "panic":
+						ev["site"], ev["msg"] = so.site, so.msg
+						ev["hist"] = h.name()
+					}
+					tr.Emit(ev)
+				}
+			}
+		}
+	}
+	// 1. IPv6 layers with their own hop-by-hop header into buffers whose recorded layer list named a stand-alone
+	//    hop-by-hop layer before: every real-stack history and a rotating choice of the TLC histories
+	if replayIn == nil {
+		for _, sub := range focusSubjects(fx) {
+			st["focus_cases"]++
+			runSubject(sub, func() []int {
+				sel := append([]int(nil), realIdx...)
+				for k := 0; k < 6 && len(ext) > 0; k++ {
+					sel = append(sel, ext[(int(seed)*13+k*(1+len(ext)/6))%len(ext)])
+				}
+				return sel
+			})
+		}
+	}
+	// 2. the corpus
 	for i := 1; i <= n; i++ {
 		in, want := pickInput(r, fx, ix, types, r.Intn(10) < 6, maxlen)
-		all := r.Intn(4) == 0 || replayIn != nil
+		allL := r.Intn(4) == 0 || replayIn != nil
 		curCase.Store(fmt.Sprintf("%s first=%s len=%d", in.name, in.first, len(in.data)))
 		tick.Add(1)
 		p := safePacket(in.data, in.first)
@@ -279,67 +527,31 @@ func runC07(tr *vh.Trace, n int, seed uint64, histFile string, khist int, maxlen
 		taken := 0
 		for j := 0; j < nl && taken < 6; j++ {
 			l0 := p.Layers()[j]
-			if _, ok := l0.(gopacket.SerializableLayer); !ok || isNil(l0) {
+			if !serializable(l0) {
 				continue
 			}
-			switch l0.(type) {
-			case *gopacket.Payload, *gopacket.Fragment, *gopacket.DecodeFailure:
-				continue
-			}
-			if !all && l0.LayerType().String() != want && want != "" {
+			if !allL && l0.LayerType().String() != want && want != "" {
 				continue
 			}
 			taken++
-			sc++
 			tick.Add(1)
-			_, pl0, dg0, tn := freshLayer(in, j)
-			if tn == "" {
-				continue
-			}
-			st["cases"]++
-			tr.Emit(vh.M{"op": "case", "sc": sc, "in": in.name, "first": in.first.String(), "j": j, "type": tn,
-				"idg": dg0, "plen": len(pl0), "dlen": len(in.data), "hex": hexOf(in.data)})
-			for o := 0; o < 4; o++ {
-				var ref []byte
-				haveRef := false
-				run := func(hi int) {
-					h := hs[hi]
-					buf := h.build()
-					for rep := 1; rep <= 2; rep++ {
-						l, pl, dg, _ := freshLayer(in, j)
-						if l == nil {
-							return
-						}
-						curCase.Store(fmt.Sprintf("%s first=%s layer=%d type=%s opts=%d hist=%s", in.name, in.first, j, tn, o, h.name()))
-						tick.Add(1)
-						so := serOne(buf, l, pl, optsOf(o))
-						st["calls"]++
-						ev := vh.M{"op": "ser", "sc": sc, "o": o, "h": hi, "rep": rep, "res": so.res, "idg": dg,
-							"d": "", "n": len(so.out)}
-						switch so.res {
-						case "ok":
-							ev["d"] = bdigest(so.out)
-							if !haveRef {
-								ref, haveRef = so.out, true
-							} else if !bytes.Equal(ref, so.out) {
-								ev["diag"] = diffDiag(ref, so.out, byte(h.F))
-								ev["hist"] = h.name()
-							}
-						case "err":
-							ev["msg"] = so.msg
-						case "panic":
-							ev["site"], ev["msg"] = so.site, so.msg
-							ev["hist"] = h.name()
-						}
-						tr.Emit(ev)
-					}
-				}
-				run(freshIdx)
+			j := j
+			runSubject(subject{name: in.name, first: in.first.String(), typ: l0.LayerType().String(), hex: hexOf(in.data), j: j, dlen: len(in.data),
+				fresh: func() (gopacket.SerializableLayer, []byte, string) {
+					l, pl, dg, _ := freshLayer(in, j)
+					return l, pl, dg
+				}}, func() []int {
+				var sel []int
 				for k := 0; k < khist; k++ {
 					rot = (rot + stride) % len(dirty)
-					run(dirty[rot])
+					sel = append(sel, dirty[rot])
 				}
-			}
+				// one real-stack history as well
+				if len(realIdx) > 0 {
+					sel = append(sel, realIdx[rot%len(realIdx)])
+				}
+				return sel
+			})
 		}
 	}
 	return st
